@@ -1671,6 +1671,18 @@ impl Term<Name> {
             lookup.combine(var_occurrence_no_stack(term, remaining))
         };
 
+        // Same, for the body of a delayed branch that is not guaranteed to be
+        // executed: an occurrence in there sits behind a delay.
+        let combine_capped_delayed = |lookup: VarLookup, term: &Term<Name>| {
+            if lookup.occurrences >= cap {
+                return lookup;
+            }
+
+            let remaining = cap - lookup.occurrences;
+
+            lookup.combine(var_occurrence_no_stack(term, remaining).delay_if_found(1))
+        };
+
         let Term::Apply {
             function: builtin,
             argument: condition,
@@ -1736,16 +1748,16 @@ impl Term<Name> {
                 } else {
                     let lookup = var_occurrence_stack(builtin, arg_stack, cap);
                     let lookup = combine_capped(lookup, condition);
-                    let lookup = combine_capped(lookup, then_arg);
-                    combine_capped(lookup, else_arg)
+                    let lookup = combine_capped_delayed(lookup, then_arg);
+                    combine_capped_delayed(lookup, else_arg)
                 }
             }
 
             _ => {
                 let lookup = var_occurrence_stack(builtin, arg_stack, cap);
                 let lookup = combine_capped(lookup, condition);
-                let lookup = combine_capped(lookup, then_arg);
-                combine_capped(lookup, else_arg)
+                let lookup = combine_capped_delayed(lookup, then_arg);
+                combine_capped_delayed(lookup, else_arg)
             }
         }
     }
